@@ -5,6 +5,11 @@
   1. Crash recovery with and without the repair of `/verif/fixes/C14.diff`
        Mem.recoverWalCfg fix    mutation.rs recover_wal; `fix = true`: the added statement
                                 `if !delta.inserted_embeddings.is_empty() && !self.vec_enabled { self.vec_enabled = true; }`
+                                right after `apply_records`.  `apply_records` neither reads nor writes
+                                `vec_enabled`, and `delta.inserted_embeddings` is non-empty exactly when a
+                                replayed Insert record carries an embedding, so the statement is modelled as
+                                `Mem.enableVecForReplay` applied BEFORE the shared `Core.recoverWal` (which
+                                therefore stays the single mirror of the rest of `recover_wal`).
        Mem.openFromCfg / Mem.crashCfg / stepCfg / runCfg / traceCfg
                                 `Core.openFrom` / `Core.crash` / `Core.step` / `run` / `trace` with that recovery
      `fix = false` is the code as found (`Core.crash`): a handle that dies before the first vector
@@ -32,15 +37,19 @@ namespace Mv.Core
 
 /-! ## 1. crash recovery, as found and repaired -/
 
+def Entry.hasEmb : Entry → Bool
+  | .insert e => e.emb.isSome
+  | _ => false
+
+/-- a pending (not yet checkpointed) Insert record carries an embedding -/
+def pendingHasEmb (recs : List (Nat × Entry)) : Bool := recs.any (fun r => r.2.hasEmb)
+
+/-- the repair of fixes/C14.diff: replayed embeddings switch vectors on -/
+def Mem.enableVecForReplay (fix : Bool) (m1 : Mem) : Mem :=
+  if fix && pendingHasEmb m1.pending && !m1.vecEnabled then { m1 with vecEnabled := true } else m1
+
 /-- `recover_wal`; `fix` = the repair of fixes/C14.diff is present -/
-def Mem.recoverWalCfg (fix : Bool) (m1 : Mem) (ft : Nat) : Mem :=
-  if m1.pending.isEmpty then m1.flushTantivy ft
-  else
-    match applyRecords m1 m1.pending true with
-    | none => m1
-    | some (ma, delta) =>
-      let mb : Mem := if fix && !delta.embs.isEmpty && !ma.vecEnabled then { ma with vecEnabled := true } else ma
-      (if delta.nonEmpty then mb.rebuildIndexes delta.embs delta.inserted ft else mb.flushTantivy ft).persistSketch.checkpoint
+def Mem.recoverWalCfg (fix : Bool) (m1 : Mem) (ft : Nat) : Mem := (m1.enableVecForReplay fix).recoverWal ft
 
 /-- `open_locked` with that recovery -/
 def Mem.openFromCfg (fix : Bool) (m : Mem) (ft : Nat) : Mem := m.openLoad.loadTracks.recoverWalCfg fix ft
